@@ -745,14 +745,17 @@ pub fn run(thorough: bool) -> Report {
     // extreme starts: graphs of 0..2 objects (one reference position), every page-tree template of at most 4 objects
     let ext_subs: Vec<SubB> = (0..=2).map(|n| SubB { n, two_pos: n == 1, ndang: 1, all_perms: true, idsets: vec![0, 1], starts: vec![], rots: vec![0], trailers: vec![0, 3], bms: vec![0, 1] }).collect();
 
+    // order: main family first (graphs, then page trees; small before large), tagged sub-families last, so that the
+    // report's failure cap keeps the main-family findings
     let mut blocks: Vec<Block> = vec![];
+    for (si, sb) in subs.iter().enumerate() { for code in 0..sb.codes() { blocks.push(Block::B { sub: si, code }); } }
+    for idset in 0..2 {
+        for (ti, tp) in templates.iter().enumerate() { for perm in permutations(tp.objs.len()) { blocks.push(Block::A { t: ti, idset, perm, extreme: false }); } }
+    }
+    for (ti, tp) in templates.iter().enumerate() { for perm in permutations(tp.objs.len()) { blocks.push(Block::A { t: ti, idset: 2, perm, extreme: false }); } }
     for (si, sb) in ext_subs.iter().enumerate() { for code in 0..sb.codes() { blocks.push(Block::E { sub: si, code }); } }
     for (ti, tp) in templates.iter().enumerate() {
         if tp.objs.len() <= 4 { for idset in 0..2 { for perm in permutations(tp.objs.len()) { blocks.push(Block::A { t: ti, idset, perm, extreme: true }); } } }
-    }
-    for (si, sb) in subs.iter().enumerate() { for code in 0..sb.codes() { blocks.push(Block::B { sub: si, code }); } }
-    for (ti, tp) in templates.iter().enumerate() {
-        for idset in 0..3 { for perm in permutations(tp.objs.len()) { blocks.push(Block::A { t: ti, idset, perm, extreme: false }); } }
     }
 
     let total = quiet(|| {
